@@ -504,11 +504,131 @@ def _check_class_sigs(case):
     return fails or None
 
 
+ATTRS_MODULE = '''\
+import attr
+from typing import Sequence, Optional, List
+@attr.s
+class A:
+    "doc"
+    ratio = attr.ib(type=float, default=0)
+    names = attr.ib(type=Sequence[str], default=())
+    label = attr.ib(default='', type='Optional[str]')
+    only_type = attr.ib(type=List[int])
+    only_default = attr.ib(default=3)
+    factory = attr.ib(type=dict, factory=list)
+@attr.s(auto_attribs=True)
+class B:
+    "doc"
+    x: int = 0
+    y: 'Optional[A]' = attr.ib(default=None)
+    z: List[str] = attr.ib(factory=list)
+'''
+DECO_MODULE = '''\
+from typing import overload
+def register(*a, **k):
+    return lambda f: f
+@overload
+@register('text', priority=1)
+def f(a: str) -> str: ...
+@register('num', [1, 2], flag=not True)
+@overload
+def f(a: int) -> int: ...
+@register('any')
+def f(a):
+    "doc"
+class K:
+    "doc"
+    @overload
+    @register(key=('a', 'b'))
+    def m(self, a: int) -> int: ...
+    @overload
+    def m(self, a: str) -> str: ...
+    @register(-1)
+    @register(x=lambda: 0)
+    def m(self, a):
+        "doc"
+    @staticmethod
+    @register('s' + 't')
+    def s(): "doc"
+'''
+
+
+def _decl_cases(tier, seed):
+    yield {'decl': 'attrs'}
+    yield {'decl': 'decorators'}
+
+
+def _check_decl(case):
+    """(attrs) the type shown for an attr.ib() attribute is the declared one (type= / annotation), an inferred one only without it;
+    (decorators) on the written page every definition - each overload and the implementation - shows its own decorators"""
+    import html as _html, os, re
+    from replay import fixtures, c14, site
+    fails = []
+    if case['decl'] == 'attrs':
+        system = fixtures.build_system([('am', ATTRS_MODULE, False)])
+        declared = {'am.A.ratio': 'float', 'am.A.names': 'Sequence[str]', 'am.A.label': 'Optional[str]', 'am.A.only_type': 'List[int]', 'am.A.factory': 'dict',
+                    'am.B.x': 'int', 'am.B.y': 'Optional[A]', 'am.B.z': 'List[str]', 'am.A.only_default': 'int'}
+        for name, want in declared.items():
+            o = system.allobjects.get(name)
+            got = None if o is None or o.annotation is None else ast.unparse(o.annotation)
+            if got is None or _norm(got) != _norm(want):
+                fails.append({'observed': f'{name}: the type shown is {got!r}', 'required': f'{want!r} (as declared)', 'class': 'attrs-type'})
+        return fails or None
+    rc, out, d = site.run_project({'dm/__init__.py': DECO_MODULE}, [])
+    try:
+        tree = ast.parse(DECO_MODULE)
+        written = {}
+        for scope, body in (('dm', tree.body), ('dm.K', next(n for n in tree.body if isinstance(n, ast.ClassDef)).body)):
+            for st in body:
+                if isinstance(st, ast.FunctionDef) and st.name != 'register':
+                    written.setdefault(f'{scope}.{st.name}', []).append(st)
+        for qual, defs in written.items():
+            page = 'index.html' if qual.count('.') == 1 else 'dm.K.html'
+            text = open(os.path.join(d, 'out', page), encoding='utf-8').read()
+            m = re.search(r'<a name="%s">.*?<div class="functionHeader">(.*?)<a class="headerLink"' % re.escape(qual), text, re.S)
+            if not m:
+                fails.append({'observed': f'{qual}: no entry on {page}', 'required': 'documented', 'class': 'deco-missing'})
+                continue
+            # the header as text: '@deco' lines and 'def name(...)' lines in page order
+            flat = _html.unescape(re.sub(r'<br\s*/?>', '\n', m.group(1)))
+            flat = re.sub(r'<[^>]+>', '', flat)
+            groups, cur = [], []
+            for line in (l.strip() for l in flat.splitlines()):
+                for piece in re.split(r'(?=@)|(?=\bdef )', line):
+                    piece = piece.strip()
+                    if piece.startswith('@'):
+                        cur.append(piece[1:])
+                    elif piece.startswith('def '):
+                        groups.append(cur)
+                        cur = []
+            want = [[ast.unparse(x) for x in fd.decorator_list] for fd in defs]
+            if len(defs) > 1:
+                # an overloaded function shows its overloads, each with its own decorators (the implementation has no def line of its own)
+                want = want[:-1]
+            if len(groups) != len(want):
+                fails.append({'observed': f'{qual}: {len(groups)} definitions in the header ({groups}), {len(want)} written', 'required': 'each definition with its decorators', 'class': 'deco-count'})
+                continue
+            for g, w in zip(groups, want):
+                try:
+                    same = [_norm(x) for x in g] == [_norm(x) for x in w]
+                except SyntaxError:
+                    same = False
+                if not same:
+                    fails.append({'observed': f'{qual}: decorators shown {g}, written {w}', 'required': 'the decorators of that definition', 'class': 'deco-meaning'})
+        return fails or None
+    finally:
+        site.cleanup(d)
+
+
 def N_norm(t):
     return ast.parse(ast.unparse(t), mode='eval').body
 
 
 HARNESS = {
+    'pydoctor/templatewriter/pages/__init__.py:format_decorators': {'cases': _decl_cases, 'check': _check_decl,
+        'covers': ['pydoctor/extensions/attrs.py:annotation_from_attrib', 'pydoctor/templatewriter/pages/__init__.py:format_overloads'],
+        'bound': 'one attrs module (9 attributes: type=, default=, factory=, annotations, in both orders) and one module with differently decorated overloads and '
+                 'implementations (function, method, static method), read from the written page'},
     'pydoctor/templatewriter/pages/__init__.py:format_class_signature': {'cases': _class_cases, 'check': _check_class_sigs,
         'covers': ['pydoctor/model.py:compute_mro'],
         'bound': 'one module with 9 classes (an external base imported under the class name, generic and dotted bases, string parts, a nested class naming '
